@@ -46,6 +46,16 @@ func wirePool(a *aspec.ASpec) {
 		}()},
 		aspec.NamedSchema{Name: "Items", Schema: aspec.Schema{K: "array", Items: &aspec.Schema{K: "ref", To: "Item"}}},
 	)
+	for _, t := range wireTypes {
+		a.Schemas = append(a.Schemas, aspec.NamedSchema{Name: "Ref" + strings.Title(t), Schema: aspec.Schema{K: t}})
+	}
+	// component responses shared by several operations under different (numbered) statuses, one for defaults only
+	a.Responses = append(a.Responses,
+		aspec.NamedResponse{Name: "SharedProblem", R: &aspec.Response{Desc: "problem", Headers: []aspec.Header{{Name: "X-Next", Schema: str}}, Body: aspec.Body{K: "json", Schema: &aspec.Schema{K: "ref", To: "Bag"}}}},
+		aspec.NamedResponse{Name: "SharedEmpty", R: &aspec.Response{Desc: "empty", Headers: []aspec.Header{{Name: "x-count", Req: true, Schema: aspec.Schema{K: "int32"}}}, Body: aspec.Body{K: "none"}}},
+		aspec.NamedResponse{Name: "SharedProblemAlias", Alias: "SharedProblem"},
+		aspec.NamedResponse{Name: "SharedDefault", R: &aspec.Response{Desc: "default", Body: aspec.Body{K: "json", Schema: &aspec.Schema{K: "ref", To: "Item"}}}},
+	)
 }
 
 func randSchemaBody(rng *rand.Rand) aspec.Body {
@@ -83,6 +93,14 @@ func randHeaders(rng *rand.Rand) []aspec.Header {
 	return out
 }
 
+// scalarSchema: a third of the scalar parameter schemas are a $ref to a component schema of that type
+func scalarSchema(typ string, rng *rand.Rand) aspec.Schema {
+	if rng.Intn(3) == 0 {
+		return aspec.Schema{K: "ref", To: "Ref" + strings.Title(typ)}
+	}
+	return aspec.Schema{K: typ}
+}
+
 // randWireOp builds one operation with seeded parameters, body and responses (component responses are added to a).
 func randWireOp(a *aspec.ASpec, k int, rng *rand.Rand) wireOp {
 	t := []aspec.Seg{{K: "lit", S: fmt.Sprintf("w%d", k)}}
@@ -96,7 +114,7 @@ func randWireOp(a *aspec.ASpec, k int, rng *rand.Rand) wireOp {
 		name := fmt.Sprintf("p%d", i+1)
 		typ := wireTypes[rng.Intn(len(wireTypes))]
 		t = append(t, aspec.Seg{K: "var", S: name})
-		params = append(params, aspec.Param{In: "path", Name: name, Req: true, Schema: aspec.Schema{K: typ}})
+		params = append(params, aspec.Param{In: "path", Name: name, Req: true, Schema: scalarSchema(typ, rng)})
 		ds = append(ds, decl{In: "path", Name: name, Type: typ, Req: true})
 	}
 	if rng.Intn(4) == 0 {
@@ -108,9 +126,10 @@ func randWireOp(a *aspec.ASpec, k int, rng *rand.Rand) wireOp {
 		typ := wireTypes[rng.Intn(len(wireTypes))]
 		arr := rng.Intn(3) == 0
 		req := rng.Intn(2) == 0
-		s := aspec.Schema{K: typ}
+		s := scalarSchema(typ, rng)
 		if arr {
-			s = aspec.Schema{K: "array", Items: &aspec.Schema{K: typ}}
+			it := scalarSchema(typ, rng)
+			s = aspec.Schema{K: "array", Items: &it}
 		}
 		params = append(params, aspec.Param{In: "query", Name: n, Req: req, Schema: s})
 		ds = append(ds, decl{In: "query", Name: n, Type: typ, Array: arr, Req: req})
@@ -120,7 +139,7 @@ func randWireOp(a *aspec.ASpec, k int, rng *rand.Rand) wireOp {
 	for _, n := range hnames[:rng.Intn(3)] {
 		typ := wireTypes[rng.Intn(len(wireTypes))]
 		req := rng.Intn(2) == 0
-		params = append(params, aspec.Param{In: "header", Name: n, Req: req, Schema: aspec.Schema{K: typ}})
+		params = append(params, aspec.Param{In: "header", Name: n, Req: req, Schema: scalarSchema(typ, rng)})
 		ds = append(ds, decl{In: "header", Name: n, Type: typ, Req: req})
 	}
 	method := []string{"GET", "POST", "PUT", "DELETE", "PATCH"}[rng.Intn(5)]
@@ -139,6 +158,23 @@ func randWireOp(a *aspec.ASpec, k int, rng *rand.Rand) wireOp {
 	op.Responses = nil
 	for _, st := range statuses[:1+rng.Intn(4)] {
 		r := aspec.Response{Desc: "r " + st, Headers: randHeaders(rng), Body: randSchemaBody(rng)}
+		if rng.Intn(3) == 0 {
+			// a shared component; one operation never uses the same component twice
+			name := []string{"SharedProblem", "SharedEmpty", "SharedProblemAlias"}[rng.Intn(3)]
+			if st == "default" {
+				name = "SharedDefault"
+			}
+			used := false
+			for _, x := range op.Responses {
+				if x.Ref == name || strings.TrimSuffix(x.Ref, "Alias") == strings.TrimSuffix(name, "Alias") {
+					used = true
+				}
+			}
+			if !used {
+				op.Responses = append(op.Responses, aspec.RespRef{Status: st, Ref: name})
+				continue
+			}
+		}
 		switch rng.Intn(4) {
 		case 0:
 			name := fmt.Sprintf("R%dx%s", k, strings.Title(st))
@@ -282,13 +318,10 @@ func checkWire(c *core.Check, which string) {
 	metaOf := map[string]opMeta{} // case id -> op
 	cfgOf := map[string]map[string]any{}
 	caseN := 0
-	for start := 0; start < len(good); start += perPkg {
-		end := start + perPkg
-		if end > len(good) {
-			end = len(good)
-		}
-		id := fmt.Sprintf("wr%d", start/perPkg)
-		base := bases[(start/perPkg)%len(bases)]
+	packOps := map[string][]int{}
+	packBase := map[string]aspec.Base{}
+	addPack := func(id string, idxs []int, base aspec.Base) {
+		packOps[id], packBase[id] = idxs, base
 		a := wireCarrier(id, base)
 		g := driver.Group{Pkg: id, Kind: "wire", API: driver.APIConfig{Mw: 1, NotFound: true}, Base: base.NF()}
 		var ops []any
@@ -296,7 +329,7 @@ func checkWire(c *core.Check, which string) {
 		if base.Form == "none" {
 			bsegs = []string{}
 		}
-		for _, k := range good[start:end] {
+		for _, k := range idxs {
 			w := randWireOp(a, k, rand.New(rand.NewSource(cands[k].seed)))
 			a.Paths = append(a.Paths, aspec.PathItem{Template: w.tmpl, Ops: []aspec.Op{w.op}})
 			opID := w.op.Method + " " + aspec.TemplateString(w.tmpl)
@@ -351,6 +384,13 @@ func checkWire(c *core.Check, which string) {
 		jobs = append(jobs, a.Job(id))
 		groups = append(groups, g)
 	}
+	for start := 0; start < len(good); start += perPkg {
+		end := start + perPkg
+		if end > len(good) {
+			end = len(good)
+		}
+		addPack(fmt.Sprintf("wr%d", start/perPkg), good[start:end], bases[(start/perPkg)%len(bases)])
+	}
 	sc, err := core.BuildScratch(jobs, false)
 	if err != nil {
 		c.HarnessError(err.Error())
@@ -358,20 +398,73 @@ func checkWire(c *core.Check, which string) {
 	}
 	defer sc.Close()
 	var kept []driver.Group
+	var failedPacks []string
 	for _, g := range groups {
 		if _, ex := sc.Excluded[g.Pkg]; ex {
-			c.Note("package %s does not build although every operation passed pre-flight: %s", g.Pkg, trunc(strings.Join(sc.Excluded[g.Pkg].TypeErr, "; "), 300))
+			failedPacks = append(failedPacks, g.Pkg)
 			continue
 		}
 		kept = append(kept, g)
 	}
+	var evs []json.RawMessage
+	if len(kept) > 0 {
+		evs, _, err = sc.Run(kept, 20*time.Minute)
+		if err != nil {
+			c.HarnessError(err.Error())
+			return
+		}
+	}
+	// A pack of individually building operations that does not build as a whole (an interaction between
+	// operations; C01's random compositions report that) is split into packs of three so that the
+	// operations are still exercised together with some of their neighbours.
+	if len(failedPacks) > 0 {
+		sort.Strings(failedPacks)
+		c.Cov["packs_not_building_split"] = failedPacks
+		jobs, groups = nil, nil
+		for _, fp := range failedPacks {
+			c.Note("package %s does not build although every operation passed pre-flight (%s); split into smaller packs", fp, trunc(strings.Join(sc.Excluded[fp].TypeErr, "; "), 200))
+			idxs := packOps[fp]
+			for k := 0; k < len(idxs); k += 3 {
+				e := k + 3
+				if e > len(idxs) {
+					e = len(idxs)
+				}
+				addPack(fmt.Sprintf("%ss%d", fp, k/3), idxs[k:e], packBase[fp])
+			}
+		}
+		sc2, err := core.BuildScratch(jobs, false)
+		if err != nil {
+			c.HarnessError(err.Error())
+			return
+		}
+		defer sc2.Close()
+		var kept2 []driver.Group
+		for _, g := range groups {
+			if _, ex := sc2.Excluded[g.Pkg]; !ex {
+				kept2 = append(kept2, g)
+			}
+		}
+		if len(kept2) > 0 {
+			evs2, _, err := sc2.Run(kept2, 20*time.Minute)
+			if err != nil {
+				c.HarnessError(err.Error())
+				return
+			}
+			// group indexes of the second run continue after the first
+			for _, raw := range evs2 {
+				var e map[string]any
+				json.Unmarshal(raw, &e)
+				if e["ev"] == "Group" {
+					e["group"] = e["group"].(float64) + float64(len(kept))
+					raw, _ = json.Marshal(e)
+				}
+				evs = append(evs, raw)
+			}
+			kept = append(kept, kept2...)
+		}
+	}
 	if len(kept) == 0 {
 		c.HarnessError("no wire package builds")
-		return
-	}
-	evs, _, err := sc.Run(kept, 20*time.Minute)
-	if err != nil {
-		c.HarnessError(err.Error())
 		return
 	}
 	var events [][]byte
